@@ -68,12 +68,15 @@ def build_pool(ctx, scratch):
     n = POOLSIZE[ctx.tier]
     # same descriptor list under two table versions that define an element differently (cache keys!)
     pairs = cases.version_sensitive_pairs(6)
-    for pi in range(2 if ctx.quick else 5):
+    FORMS = ['marker', 'plain', 'first-order', 'assoc', 'plain']
+    for pi in range(3 if ctx.quick else 6):
         if not pairs:
             break
         pair = rng.choice(pairs)
+        form = FORMS[(pi + ctx.shard) % len(FORMS)]
+        ctx.add('version_pair_forms', form)
         try:
-            ids, (ma, mb) = cases.version_pair_messages(rng, pair, compressed=bool(pi % 2))
+            ids, (ma, mb) = cases.version_pair_messages(rng, pair, compressed=bool(pi % 2), form=form)
         except (R.Unsupported, KeyError):
             continue
         pool.append(('pair%d-%06d-v%d' % (pi, pair[0], pair[1]), ma.bytes, None))
@@ -83,7 +86,7 @@ def build_pool(ctx, scratch):
     if lpairs:
         lp = rng.choice(lpairs)
         try:
-            ids, (ma, mb) = cases.local_pair_messages(rng, lp)
+            ids, (ma, mb) = cases.local_pair_messages(rng, lp, form=['plain', 'marker', 'assoc'][ctx.shard % 3])
             pool.append(('lpair-%06d-l%d' % (lp[0], lp[1][2]), ma.bytes, None))
             pool.append(('lpair-%06d-l%d' % (lp[0], lp[2][2]), mb.bytes, None))
             ctx.count('local_table_pairs_in_pool')
